@@ -101,6 +101,10 @@ def run_chain(desc):
                     violations.append({"mechanism": f"chain-recursion-{engine}-rtc{rtc}", "rule": "C03.constant-depth",
                                        "detail": f"RecursionError after {len(depths)} links: {err}", "witness": {"source": src, "limit": limit}})
                     continue
+                except Exception as err:  # noqa: BLE001
+                    violations.append({"mechanism": f"chain-raised-{engine}-rtc{rtc}", "rule": "C03.fifo",
+                                       "detail": f"{type(err).__name__}: {err} after {len(depths)} links", "witness": {"source": src, "limit": limit}})
+                    continue
                 counters["chains"] += 1
                 counters["chain_links"] += len(depths)
                 sigs.add(F.h(("chain", engine, place, rtc)))
@@ -130,8 +134,68 @@ def run_chain(desc):
                         if rets != exp:
                             violations.append({"mechanism": "chain-nonrtc-own-result", "rule": "C03.non-rtc-own-result",
                                                "detail": f"nested results {rets[:6]}.. expected {exp[:6]}..", "witness": {"source": src}})
+    cross_machine(counters, violations, sigs)
     return {"evaluations": counters["chains"], "signatures": sorted(sigs), "samples": [{"chain_source": CHAIN_SRC, "links": long_n}],
             "counters": counters, "violations": violations}
+
+
+CROSS_SRC = '''
+class Outer_{k}(StateMachine):
+    a = State(initial=True)
+    b = State()
+    go = a.to(b, {place}="poke")
+    back = b.to(a)
+    {a}def poke(self, *args, **kwargs):
+        r = INNER[0].send("tick", 7)
+        {aw}
+        LOG.append(("inner-returned", r, INNER[0].current_state.id))
+        return "outer"
+
+class Inner_{k}(StateMachine):
+    x = State(initial=True)
+    y = State()
+    tick = x.to(y, on="mark") | y.to(x, on="mark")
+    {a}def mark(self, n):
+        LOG.append(("inner-ran", n))
+        return "inner-%s" % n
+'''
+
+
+def cross_machine(counters, violations, sigs):
+    """A callback of machine A sends an event to an idle machine B (another instance, another
+    class, or one created inside the callback): B is not the machine in progress, so the call is
+    an outermost call for B - it must be processed at once and return B's own result."""
+    import inspect
+
+    from statemachine import State, StateMachine
+
+    k = 0
+    for engine in ("sync", "async"):
+        for place in ("before", "on", "after"):
+            for rtc in (True, False):
+                if engine == "async" and not rtc:
+                    continue
+                k += 1
+                log, inner = [], [None]
+                src = CROSS_SRC.format(k=f"{k}", place=place, a="async " if engine == "async" else "",
+                                       aw="r = (await r) if inspect.isawaitable(r) else r" if engine == "async" else "pass")
+                ns = {"State": State, "StateMachine": StateMachine, "LOG": log, "INNER": inner, "inspect": inspect,
+                      "__name__": "vmon_c03cross"}
+                exec(compile(src, "<c03cross>", "exec"), ns)
+                try:
+                    inner[0] = ns[f"Inner_{k}"](rtc=rtc)
+                    outer = ns[f"Outer_{k}"](rtc=rtc)
+                    res = outer.send("go")
+                    outer_state = outer.current_state.id
+                except Exception as err:  # noqa: BLE001
+                    res, outer_state = f"raised {type(err).__name__}: {err}", None
+                counters["cross_machine_cases"] = counters.get("cross_machine_cases", 0) + 1
+                sigs.add(F.h(("cross", engine, place, rtc)))
+                want = [("inner-ran", 7), ("inner-returned", "inner-7", "y")]
+                if log != want or outer_state != "b":
+                    violations.append({"mechanism": f"cross-machine-send-not-processed-{engine}", "rule": "C03.outermost-call-of-idle-machine",
+                                       "detail": f"log={log} expected={want} outer={outer_state} res={res!r}",
+                                       "witness": {"source": src, "place": place, "rtc": rtc}})
 
 
 def run_shard(desc):
